@@ -546,9 +546,33 @@ func (pr *prover) visit(t Term) {
 			pr.add(t, Zero, 8)
 		case "(*encoding/base64.Encoding).EncodedLen", "(*encoding/base64.Encoding).DecodedLen":
 			pr.add(Zero, t, 0)
-		case "builtin.min":
-			for _, a := range x.Call.Args {
-				pr.add(t, pr.termOf(a), 0)
+		case "builtin.min", "builtin.max":
+			// min: t <= every argument and t >= the smallest lower bound; max: dually
+			isMin := name == "builtin.min"
+			all, ext := true, int64(0)
+			for i, a := range x.Call.Args {
+				at := pr.termOf(a)
+				var b int64
+				var ok bool
+				if isMin {
+					pr.add(t, at, 0)
+					b, ok = pr.lb(at)
+				} else {
+					pr.add(at, t, 0)
+					b, ok = pr.ub(at)
+				}
+				if !ok {
+					all = false
+				} else if i == 0 || (isMin && b < ext) || (!isMin && b > ext) {
+					ext = b
+				}
+			}
+			if all && len(x.Call.Args) > 0 {
+				if isMin {
+					pr.add(Zero, t, -ext)
+				} else {
+					pr.add(t, Zero, ext)
+				}
 			}
 		case "builtin.copy":
 			pr.add(Zero, t, 0)
@@ -851,8 +875,15 @@ func (pr *prover) prove(a, b Term, k int64) bool {
 				sub.visit(y)
 			}
 			sub.pathFacts()
+			// the condition of the edge pred -> phi block itself
+			if iff, isIf := term.(*ssa.If); isIf && pred.Succs[0] != pred.Succs[1] {
+				sub.condFact(iff.Cond, pred.Succs[0] == ph.Block())
+			}
 			sub.cons = append(sub.cons, sub.hyp...)
 			sub.refresh()
+			if iff, isIf := term.(*ssa.If); isIf && pred.Succs[0] != pred.Succs[1] {
+				sub.condFact(iff.Cond, pred.Succs[0] == ph.Block())
+			}
 			sub.cons = append(sub.cons, sub.hyp...)
 			if !sub.prove(x, y, k) {
 				return false
@@ -872,6 +903,44 @@ func (pr *prover) prove(a, b Term, k int64) bool {
 					return true
 				}
 			}
+		}
+	}
+	// a - min(xs) <= k when a - x <= k for every x; max(xs) - b <= k when x - b <= k for every x
+	minmax := func(t Term, want string) []ssa.Value {
+		if t.IsLen || t.V == nil {
+			return nil
+		}
+		if c, ok := t.V.(*ssa.Call); ok && CalleeName(c.Common()) == want {
+			return c.Call.Args
+		}
+		return nil
+	}
+	if args := minmax(b, "builtin.min"); len(args) > 0 {
+		all := true
+		for _, x := range args {
+			xt := pr.termOf(x)
+			pr.visit(xt)
+			if !pr.prove(a, xt, k) {
+				all = false
+				break
+			}
+		}
+		if all {
+			return true
+		}
+	}
+	if args := minmax(a, "builtin.max"); len(args) > 0 {
+		all := true
+		for _, x := range args {
+			xt := pr.termOf(x)
+			pr.visit(xt)
+			if !pr.prove(xt, b, k) {
+				all = false
+				break
+			}
+		}
+		if all {
+			return true
 		}
 	}
 	if ph, ok := a.V.(*ssa.Phi); ok && !a.IsLen {
@@ -1108,9 +1177,9 @@ type sumKey struct {
 }
 
 type resultSummary struct {
-	nonNeg   bool
-	leLenOf  []int // parameter indexes j such that result <= len(param j)
-	done     bool
+	nonNeg  bool
+	leLenOf []int // parameter indexes j such that result <= len(param j)
+	done    bool
 }
 
 // summary of an integer result of a module function: result >= 0, and
